@@ -79,7 +79,8 @@ func (r PayloadRange) Resolve(payloadLen uint64) (uint64, uint64, error) {
 		last := min(r.Second, payloadLen-1)
 		off, ln = r.First, last-r.First+1
 	case PayloadRangeModeFrom:
-		if r.First >= payloadLen {
+		// from zero is the whole payload (see IsFull), an empty one too
+		if r.First != 0 && r.First >= payloadLen {
 			return 0, 0, apistatus.ErrObjectOutOfRange
 		}
 		off, ln = r.First, payloadLen-r.First
